@@ -77,6 +77,8 @@ class ContractMixin:
             for a in args:
                 if isinstance(a, ast.Name) and a.id == 'all_heap':
                     mods['all'] = True
+                elif isinstance(a, ast.Name) and a.id == 'user_effects':
+                    mods['user'] = True
                 elif isinstance(a, ast.Name) and a.id == 'nothing':
                     pass
                 elif isinstance(a, ast.Attribute):
@@ -106,8 +108,11 @@ class ContractMixin:
     def apply_modifies(self, st: St, mods):
         """havoc the locations a callee may write"""
         if mods['all']:
-            self.havoc_user(st) if False else self.havoc_all(st)
+            self.havoc_all(st)
             return
+        if mods.get('user'):
+            # whatever unknown user code may do: everything except plumpy-internal objects (A-PRIV frame of the unit)
+            self.havoc_user(st)
         def cond(r, new, old):
             g = mods['guards'].get(r.get_id(), TRUE)
             return new if z3.is_true(g) else z3.If(g, new, old)
@@ -196,7 +201,20 @@ class ContractMixin:
                     s2.assume(goal)
                     continue
                 if not self.entails(s2, goal):
-                    self.add_obligation('pre', s2, goal, f'{c.target}::{label}', node, detail=ast.unparse(rest[0]))
+                    goal_ob = goal
+                    uc = self.unit_contract
+                    for kn in (uc.calls('known') if uc is not None else []):
+                        if kn.args[0].value == f"{c.target.rsplit('.', 1)[-1]}::{label}":
+                            # a known finding recorded against this call-site precondition: proved on the complement
+                            when = self.spec_bool(s2, self.sev(s2, kn.args[2], self.unit_env, uc.module))
+                            kob = self.add_obligation('pre', s2, z3.Implies(when, goal), f'{c.target}::{label}@{kn.args[1].value}', node,
+                                                      detail='known finding side: ' + ast.unparse(kn.args[2]))
+                            kob.expect_refuted = True
+                            kob.known_id = kn.args[1].value
+                            goal_ob = z3.Implies(NOT(when), goal_ob)
+                    ob_ = self.add_obligation('pre', s2, goal_ob, f'{c.target}::{label}', node, detail=ast.unparse(rest[0]))
+                    ob_.replay = {k.args[0].value: k.args[1].value for k in (uc.calls('replay') if uc is not None else [])}.get(
+                        f"{c.target.rsplit('.', 1)[-1]}::{label}")
                 s2.assume(goal)
                 if dbg0:
                     print('   after requires', label, self.feasible(s2))
@@ -245,7 +263,12 @@ class ContractMixin:
                     print('DEBUG apply', c.target, 'feasible after modifies:', self.feasible(s3))
                 for call in c.calls('ensures'):
                     label, rest = self._label(call, 'post')
-                    s3.assume(self.spec_bool(s3, self.sev(s3, rest[0], e3, c.module)))
+                    clause = self.spec_bool(s3, self.sev(s3, rest[0], e3, c.module))
+                    for kn in c.calls('known'):
+                        if kn.args[0].value == label:
+                            # the callee has an open known finding on this clause: callers may rely on it only off the finding
+                            clause = z3.Implies(NOT(self.spec_bool(s3, self.sev(s3, kn.args[2], e3, c.module))), clause)
+                    s3.assume(clause)
                     if dbg:
                         print('   after ensures', label, self.feasible(s3))
                 s3.pc.extend(pre.pc[pre_len:])
@@ -271,7 +294,10 @@ class ContractMixin:
                     if len(rest) > 1:
                         s4.assume(self.spec_bool(s4, self.sev(s4, rest[1], e4, c.module)))
                     s4.pc.extend(pre.pc[pre_len:])
-                    if self.feasible(s4):
+                    ok4 = self.feasible(s4)
+                    if dbg0:
+                        print('   raise branch', label, ast.unparse(rest[0]), 'feasible:', ok4, 'notes', s4.notes[-6:])
+                    if ok4:
                         outs.append(Out('raise', s4, ev))
             elif not c.has('raises_nothing'):
                 # silent about exceptions: may raise any Exception after arbitrary changes within `modifies`
@@ -567,7 +593,7 @@ class ContractMixin:
     def check_frame(self, st: St, c: Contract, env):
         pre = env['__old__']
         mods = self.parse_modifies(pre, c, env)
-        if mods['all']:
+        if mods['all'] or mods.get('user'):
             return
         r = smt.fresh('fr', smt.Int)
         a = smt.fresh('fa', smt.Str)
